@@ -4,6 +4,7 @@ import B2Z.Proofs.Pipeline
 import B2Z.Props.C08
 import B2Z.Props.C11
 import B2Z.Props.C16
+import B2Z.Props.C01Fixed
 /-! # C01 / C03 — the conversion pipeline refines the one-line specification
 
 For one column: whatever the explode tiling, the flush schedule, the encode partitioning, the chunk
